@@ -490,6 +490,49 @@ pub fn run(ctx: &Ctx) {
             msgs.push(p.encode(0));
             msgs.push(p.encode_compressed(0, true));
         }
+        // pointers into the bytes just in front of themselves: a question / owner name that is a
+        // pointer to 1..=24 bytes before its own position, where the fixed fields of the previous
+        // entry (or its name) are read as labels that run across the pointer; with and without
+        // bytes behind the message that a mis-placed cursor would pick up
+        let n_near = {
+            let mut near: Vec<Vec<u8>> = Vec::new();
+            for k in 1..=24usize {
+                for (qt, qc) in [(1u16, 1u16), (16, 1), (1, 255), (255, 3), (12, 4), (2, 1)] {
+                    for as_owner in [false, true] {
+                        for tail in [0usize, 40] {
+                            let mut m: Vec<u8> = vec![0x05, 0x0a, 0x84, 0x00, 0, if as_owner { 1 } else { 2 }, 0, if as_owner { 2 } else { 1 }, 0, 0, 0, 0];
+                            m.extend_from_slice(&[3, b'a', b'b', b'c', 1, b'd', 0]);
+                            m.extend_from_slice(&qt.to_be_bytes());
+                            m.extend_from_slice(&qc.to_be_bytes());
+                            if as_owner {
+                                // a first record whose RDATA ends in a small number, then the near pointer as owner of the second
+                                m.extend_from_slice(&[0xc0, 12, 0, 1, 0, 1, 0, 0, 0, 1, 0, 4, 10, 0, 0, 1]);
+                            }
+                            let p = m.len();
+                            if k > p {
+                                continue;
+                            }
+                            let target = p - k;
+                            m.extend_from_slice(&[0xc0 | (target >> 8) as u8, target as u8]);
+                            if as_owner {
+                                m.extend_from_slice(&[0, 1, 0, 1, 0, 0, 0, 2, 0, 4, 10, 0, 0, 2]);
+                            } else {
+                                m.extend_from_slice(&[0, 1, 0, 1]);
+                                m.extend_from_slice(&[0xc0, 12, 0, 1, 0, 1, 0, 0, 0, 3, 0, 4, 10, 0, 0, 3]);
+                            }
+                            for j in 0..tail {
+                                // plausible record bytes behind the message
+                                m.push([0u8, 0, 16, 0, 1, 0, 0, 0, 9, 0, 2, 1, b'x', 0xc0, 12, 0, 1, 0, 1, 0][j % 20]);
+                            }
+                            near.push(m);
+                        }
+                    }
+                }
+            }
+            let n = near.len();
+            msgs.extend(near);
+            n
+        };
         let n_large = {
             let large = gen::large_messages();
             let n = large.len();
@@ -512,7 +555,8 @@ pub fn run(ctx: &Ctx) {
             }
         });
         ctx.space("name shapes: owner names of 0..=130 inline labels with and without a closing pointer, a label of every length 1..=63 before a pointer, chains of every length up to 700 (2100 thorough) and 2000/4000/8000 label-less backward pointers reached from an owner, an MX exchange and a following record; all natural RDLENGTHs, acceptance required exactly when the envelope walker succeeds", n_shapes as u64, "complete");
-        ctx.space("size sweep: reference encodings (plain and compressed) of every string length 0..=255, tail length 0..=600, label count 1..=127, label length 1..=63, name length 3..=255, list sizes and 2..400 distinct repeated names", (msgs.len() - n_shapes - n_large) as u64, "complete");
+        ctx.space("size sweep: reference encodings (plain and compressed) of every string length 0..=255, tail length 0..=600, label count 1..=127, label length 1..=63, name length 3..=255, list sizes and 2..400 distinct repeated names", (msgs.len() - n_shapes - n_large - n_near) as u64, "complete");
+        ctx.space("near pointers: a question or owner name that is a pointer to 1..=24 bytes before itself (into the previous entry's fixed fields, RDATA or name), 6 preceding type / class values, with and without 40 plausible bytes behind the message", n_near as u64, "complete");
         ctx.space("messages beyond 64 KiB: records with RDATA of 32766..65535 bytes followed by records whose names are compression pointers located beyond offset 65536 (and 131072, 196608), and messages whose sections together hold 65536..196605 records", n_large as u64, "complete");
     }
     {
